@@ -521,13 +521,32 @@ func checkInsertCallSites(w *World, r *Report, rg *registry, ins, caller *FuncIn
 	if rg.check == nil {
 		return
 	}
+	// the argument of a call in the position of the callee's *Descriptor parameter
+	descArg := func(fn *FuncInfo, c *ast.CallExpr) ast.Expr {
+		k := 0
+		for _, f := range fn.Decl.Type.Params.List {
+			for _, nm := range f.Names {
+				if o := fn.Pkg.TypesInfo.Defs[nm]; o != nil && isNamedType(o.Type(), modPath, "Descriptor") {
+					if k < len(c.Args) {
+						return c.Args[k]
+					}
+					return nil
+				}
+				k++
+			}
+		}
+		if len(c.Args) > 0 {
+			return c.Args[0]
+		}
+		return nil
+	}
 	// error variables assigned from check(d, ...)
 	type chk struct{ arg types.Object }
 	errOf := map[types.Object]chk{}
 	ast.Inspect(caller.Decl.Body, func(x ast.Node) bool {
 		if as, ok := x.(*ast.AssignStmt); ok && len(as.Rhs) == 1 && len(as.Lhs) == 1 {
 			if c, ok := unparen(as.Rhs[0]).(*ast.CallExpr); ok && callee(info, c) == rg.check.Obj && len(c.Args) >= 1 {
-				errOf[objOf(info, as.Lhs[0])] = chk{objOf(info, c.Args[0])}
+				errOf[objOf(info, as.Lhs[0])] = chk{objOf(info, descArg(rg.check, c))}
 			}
 		}
 		return true
@@ -555,7 +574,7 @@ func checkInsertCallSites(w *World, r *Report, rg *registry, ins, caller *FuncIn
 				continue
 			}
 			c, ok := unparen(as.Rhs[0]).(*ast.CallExpr)
-			if !ok || callee(info, c) != rg.check.Obj || len(c.Args) < 1 || objOf(info, c.Args[0]) != elem {
+			if !ok || callee(info, c) != rg.check.Obj || len(c.Args) < 1 || objOf(info, descArg(rg.check, c)) != elem {
 				continue
 			}
 			// error branch returns
@@ -617,7 +636,7 @@ func checkInsertCallSites(w *World, r *Report, rg *registry, ins, caller *FuncIn
 			}
 			n++
 			con := fmt.Sprintf("%s#insert-call/%d", caller.Name(), n)
-			arg := objOf(info, c.Args[0])
+			arg := objOf(info, descArg(ins, c))
 			bf := sol.Before[nd]
 			good := arg != nil && bf.Has("checked:"+arg.Name())
 			how := "dominated by a successful duplicate/reserved check of the same descriptor"
@@ -634,7 +653,7 @@ func checkInsertCallSites(w *World, r *Report, rg *registry, ins, caller *FuncIn
 				})
 			}
 			r.Check(good, "R17.2", con, c.Pos(), true, "the infallible insert is "+how,
-				"the insert step is reached without the duplicate/reserved check having succeeded for "+exprStr(c.Args[0])+" on every path")
+				"the insert step is reached without the duplicate/reserved check having succeeded for "+exprStr(descArg(ins, c))+" on every path")
 		}
 	}
 }
